@@ -5,12 +5,18 @@
  * list alone as the reference and afterwards compares every thread's records with it.
  *
  *   thrdrv <threads> <rounds>
+ *   thrdrv sched <k>      deterministic interleaving (needs -DALVERIF_HOOKS): thread A makes the process's FIRST
+ *                         asm_create_instance call and is held after its k-th index table store; thread B then runs a
+ *                         complete job (create / options / assemble / destroy, all first letters) while A is held; A is
+ *                         released, finishes its create and runs the job too; both are compared with the job run alone
+ *                         afterwards.  k beyond the number of stores: B runs after A's create has completed.
  * Output: "threads=N rounds=R steps=S mismatches=M" and, for the first mismatches, one line each.
  * Built with -fsanitize=thread (TSan reports go to stderr, exit code 66) and, separately, at -O2.
  */
 #define _GNU_SOURCE 1
 #include <assemblyline.h>
 #include <pthread.h>
+#include <sched.h>
 #include <stdio.h>
 #include <stdlib.h>
 #include <string.h>
@@ -68,7 +74,65 @@ static void run_job(struct job *j) {
 
 static void *thread_main(void *p) { run_job((struct job *)p); return NULL; }
 
+/* ---- deterministic interleaving at the granularity of one index table store ---- */
+static volatile int hold_at = -1;       /* A is held after this many stores (-1: never) */
+static volatile int a_stores = 0;
+static volatile int a_held = 0, a_done_create = 0, release_a = 0;
+static pthread_t thread_a;
+
+void alverif_hook_index_store(int table, int slot) {
+  (void)table; (void)slot;
+  if (hold_at < 0 || !pthread_equal(pthread_self(), thread_a)) return;
+  a_stores++;
+  if (a_stores == hold_at) {
+    __atomic_store_n(&a_held, 1, __ATOMIC_SEQ_CST);
+    while (!__atomic_load_n(&release_a, __ATOMIC_SEQ_CST)) sched_yield();
+  }
+}
+
+static void *sched_a(void *p) {
+  /* the first create of the process, then the job */
+  uint8_t buf[64];
+  assemblyline_t al = asm_create_instance(buf, sizeof buf);
+  __atomic_store_n(&a_done_create, 1, __ATOMIC_SEQ_CST);
+  if (al) asm_destroy_instance(al);
+  run_job((struct job *)p);
+  return NULL;
+}
+
+static int compare(const char *who, struct job *j, struct job *ref) {
+  int mism = 0;
+  if (j->nsteps != ref->nsteps) { printf("%s: %d steps, reference %d\n", who, j->nsteps, ref->nsteps); return 1; }
+  for (int s = 0; s < ref->nsteps; s++)
+    if (memcmp(&j->r[s], &ref->r[s], sizeof(struct rec)) != 0) {
+      if (mism < 3)
+        printf("%s step %d: rc=%d off=%d cnt=%d hash=%08x, alone rc=%d off=%d cnt=%d hash=%08x\n", who, s, j->r[s].rc, j->r[s].off,
+               j->r[s].cnt, j->r[s].hash, ref->r[s].rc, ref->r[s].off, ref->r[s].cnt, ref->r[s].hash);
+      mism++;
+    }
+  return mism;
+}
+
+static int main_sched(int k) {
+  struct job *ja = calloc(1, sizeof *ja), *jb = calloc(1, sizeof *jb), *ref = calloc(1, sizeof *ref);
+  ja->rounds = jb->rounds = ref->rounds = 1;
+  hold_at = k;
+  pthread_create(&thread_a, NULL, sched_a, ja);
+  /* wait until A is held (or has finished its create without reaching k stores) */
+  while (!__atomic_load_n(&a_held, __ATOMIC_SEQ_CST) && !__atomic_load_n(&a_done_create, __ATOMIC_SEQ_CST)) sched_yield();
+  int held = a_held;
+  run_job(jb);                       /* B: complete job while A is held */
+  __atomic_store_n(&release_a, 1, __ATOMIC_SEQ_CST);
+  pthread_join(thread_a, NULL);
+  hold_at = -1;
+  run_job(ref);                      /* alone, afterwards */
+  int mism = compare("thread B (ran while A was held inside its create)", jb, ref) + compare("thread A", ja, ref);
+  printf("sched k=%d held=%d stores_by_A=%d steps=%d mismatches=%d\n", k, held, a_stores, ref->nsteps, mism);
+  return mism ? 1 : 0;
+}
+
 int main(int argc, char **argv) {
+  if (argc > 2 && !strcmp(argv[1], "sched")) return main_sched(atoi(argv[2]));
   int n = argc > 1 ? atoi(argv[1]) : 4;
   int rounds = argc > 2 ? atoi(argv[2]) : 3;
   if (n > 64) n = 64;
